@@ -303,6 +303,37 @@ func (r *run) c01(g *gen.G, budget int) {
 	for _, f := range fixed {
 		r.c01Input("dec", f, seed)
 	}
+	// device information blocks whose 30-octet name field carries no terminator, or is all terminators,
+	// or has text behind the first terminator (a description and a search response each)
+	for _, kind := range []int{3, 1} {
+		base := knxnet.AllocAndPack(g.Service(kind))
+		off := 30
+		if kind == 1 {
+			off = 38
+		}
+		if len(base) < off+30 {
+			continue
+		}
+		for variant := 0; variant < 4; variant++ {
+			f := append([]byte(nil), base...)
+			for i := 0; i < 30; i++ {
+				switch variant {
+				case 0:
+					f[off+i] = byte(0x41 + i%26) // no NUL at all
+				case 1:
+					f[off+i] = 0
+				case 2:
+					f[off+i] = byte(0xC0 + i) // Latin-1 letters, no NUL
+				default:
+					f[off+i] = byte(0x61 + i%26)
+					if i == 7 {
+						f[off+i] = 0 // text behind the first terminator
+					}
+				}
+			}
+			r.c01Input("dec", f, seed)
+		}
+	}
 	r.c01Input("decc", []byte{0x11, 200, 1, 2}, seed)
 	r.c01Input("decc", []byte{0x29, 0, 0xbc, 0xe0, 0x11, 1, 9, 2, 9, 0, 0x80}, seed)
 	for r.nOps < budget {
@@ -1074,6 +1105,37 @@ func (r *run) c11(g *gen.G, budget int) {
 		l.Destination = []uint16{0, 1, 0x0902, 0x7fff, 0x8000, 0xffff}[(n/6)%6]
 		m, lp := mk(n, l)
 		r.c11Frame(m, lp)
+	}
+	// decoding extracts the fields of THIS layout whatever the receiving value held before: the same
+	// LData value decodes a frame with additional info / long data, then a frame without
+	for i := 0; i < 300; i++ {
+		la, lb := g.LData(), g.LData()
+		if len(la.Info) == 0 {
+			la.Info = cemi.Info(g.Bytes(1 + g.R.Intn(8)))
+		}
+		if i%2 == 0 {
+			lb.Info = nil
+		}
+		if i%3 == 0 {
+			lb.Data = &cemi.ControlData{Command: uint8(g.R.Intn(4))}
+		}
+		wa, wb := specLData(0x29, &la), specLData(0x29, &lb)
+		var reused cemi.LDataInd
+		fresh := decodeCemi(wb)
+		out := guarded(func() decOut {
+			if _, err := reused.Unpack(wa[1:]); err != nil {
+				return decOut{class: "err"}
+			}
+			if _, err := reused.Unpack(wb[1:]); err != nil {
+				return decOut{class: "err"}
+			}
+			return decOut{class: "ok", toks: ktext.Cemi(&reused)}
+		})
+		r.classes["decode-into-used-value"]++
+		if fresh.class == "ok" && (out.class != "ok" || ktext.Join(out.toks) != ktext.Join(fresh.toks)) {
+			r.violation("layout-decode", "decc "+ktext.Hex(wb)+" - into a value that had decoded "+ktext.Hex(wa)+" before",
+				"a fresh value yields "+fresh.String()+" | the used value yields "+out.String())
+		}
 	}
 	for r.nOps < budget {
 		l := g.LData()
